@@ -36,7 +36,9 @@ def _havoc(path, env, names):
             if isinstance(v, Leaf):
                 v = v.value
             k = kind_of(v)
-            if k in ("int", "real", "bool"):
+            if hasattr(v, "havoc"):
+                env.locals[nm] = v.havoc(path)
+            elif k in ("int", "real", "bool"):
                 env.locals[nm] = path.fresh(nm, k)
             elif isinstance(v, SV) and v.k == "name":
                 env.locals[nm] = path.fresh(nm, "name")
@@ -44,14 +46,18 @@ def _havoc(path, env, names):
                 raise Unsupported("loop rule: cannot havoc local %r of type %s" % (nm, type(v).__name__))
 
 
-def for_seq_invariant(inv, havoc=None, kinds=None, defs=None):
+def for_seq_invariant(inv, havoc=None, kinds=None, defs=None, declare=None, allow_break=False):
     """inv(locals: dict, k: z3 Int, seq: SymSeq) -> list[(name, z3 Bool)].
 
-    Locals assigned in the body and not yet bound before the loop can be given kinds via `kinds`.
+    declare(path) -> dict of locals that may be unbound before the loop but are bound in every later iteration that
+    reads them (the invariant must justify reading them). allow_break: a `break` leaves the loop with the state
+    at the break (a genuine exit from an arbitrary iteration); at normal exhaustion the loop variable holds the
+    last element.
     """
 
     def spec(interp, s, env, it):
         path = interp.path
+        ordinal = env.loop_ordinal
         if not isinstance(it, SymSeq):
             raise Unsupported("loop rule expects a symbolic sequence, got %s" % type(it).__name__)
         n = it.len_term()
@@ -59,10 +65,13 @@ def for_seq_invariant(inv, havoc=None, kinds=None, defs=None):
             for ax in defs(env.locals, z3.IntVal(0), it):
                 path.assume(ax)
         for nm, g in inv(env.locals, z3.IntVal(0), it):
-            path.oblige("loop%d_inv_entry:%s" % (env.loop_ordinal, nm), g, where="line %d" % s.lineno, kind="inv")
+            path.oblige("loop%d_inv_entry:%s" % (ordinal, nm), g, where="line %d" % s.lineno, kind="inv")
         names = havoc if havoc is not None else [x for x in assigned_names(s.body)]
         tnames = assigned_names([ast.Assign(targets=[s.target], value=ast.Constant(0))])
         _havoc(path, env, [x for x in names if x not in tnames])
+        if declare is not None:
+            for nm, v in declare(path).items():
+                env.locals[nm] = v
         k = path.fresh("k", "int")
         path.assume(z3.And(k.t >= 0, k.t <= n))
         for nm, g in inv(env.locals, k.t, it):
@@ -81,11 +90,15 @@ def for_seq_invariant(inv, havoc=None, kinds=None, defs=None):
             except _Continue:
                 pass
             except _Break:
-                raise Unsupported("break inside a loop under the invariant rule")
+                if not allow_break:
+                    raise Unsupported("break inside a loop under the invariant rule")
+                return None      # leaves the loop from iteration k with the current state
             for nm, g in inv(env.locals, k.t + 1, it):
-                path.oblige("loop%d_inv_preserved:%s" % (env.loop_ordinal, nm), g, where="line %d" % s.lineno, kind="inv")
+                path.oblige("loop%d_inv_preserved:%s" % (ordinal, nm), g, where="line %d" % s.lineno, kind="inv")
             raise PathEnd("loop body verified (cut)")
-        # exit: k == n and the invariant holds
+        # exit: k == n and the invariant holds; the loop variable keeps the last element (if any)
+        if path.branch(n > 0):
+            interp.assign(s.target, it.elem(n - 1), env)
         return None
     return spec
 
